@@ -2,10 +2,9 @@
    Property theorems only; each is closed by `exact <lemma>` and followed by
    Print Assumptions.  The pattern list `base_patterns` comes from Gen/Secure.v,
    regenerated from pygopherd/handlers/base.py on every run. *)
-From Coq Require String.
+From Coq Require Import String.
 From PG Require Import Lib.Str Lib.StrFacts Gen.Secure Model.Selector Proofs.SelectorFacts Proofs.C01Facts.
 Local Open Scope N_scope.
-Local Open Scope string_scope.
 
 (* The climbing substrings named by the property text (./ .. // .\ \\ NUL) are C01Facts.climbers *)
 
@@ -53,7 +52,7 @@ Print Assumptions C01_child_confined.
 
 (* non-vacuity: a concrete secure selector and root *)
 Example C01_example :
-  is_secure (lit "/docs/a.txt") = true /\ starts_with_slash (lit "/docs/a.txt") = true /\
-  getfspath (lit "/var/gopher") (lit "/docs/a.txt") = Some (lit "/var/gopher/docs/a.txt") /\
-  is_secure (lit "/docs/../../etc/passwd") = false.
+  is_secure (lit "/docs/a.txt"%string) = true /\ starts_with_slash (lit "/docs/a.txt"%string) = true /\
+  getfspath (lit "/var/gopher"%string) (lit "/docs/a.txt"%string) = Some (lit "/var/gopher/docs/a.txt"%string) /\
+  is_secure (lit "/docs/../../etc/passwd"%string) = false.
 Proof. vm_compute. repeat split; reflexivity. Qed.
